@@ -251,6 +251,8 @@ class Translator:
         b = self.expr(node.right, env)
         if op == "Add" and a.typ == "Bytes" and b.typ == "Bytes":
             return V(f"({a.term} ++ {b.term})", "Bytes")
+        if op == "BitOr" and a.typ.startswith("Set ") and a.typ == b.typ:
+            return V(f"({a.term} ++ {b.term})", a.typ)        # a list standing for the set; a set is only ever asked `in`
         if not (is_int(a.typ) and is_int(b.typ)):
             self.bad(node, f"operator {op} on {a.typ} and {b.typ}")
         inf = lambda o: (lambda x, y: f"({x} {o} {y})")
@@ -511,6 +513,16 @@ class Translator:
                     self.bad(node, f"to_bytes on {n.typ}, {k.typ}")
                 return V(self.hoist(f"PyRt.toBytesE {self.to_int(n)} {self.to_int(k)}", "Bytes", node), "Bytes")
             self.bad(node, "to_bytes other than (length, 'big'[, signed=False])")
+        calls = self.spec.get("calls", {})
+        if fname in calls and not kw:
+            c = calls[fname]
+            if len(node.args) != len(c["args"]):
+                self.bad(node, f"call of `{fname}` with {len(node.args)} arguments, the spec knows {len(c['args'])}")
+            args = [self.coerce(self.expr(a, env), t, node) for a, t in zip(node.args, c["args"])]
+            term = f"{c['lean']} " + " ".join(args)
+            if c.get("raises"):
+                return V(self.hoist(term, c["ret"], node), c["ret"])
+            return V(f"({term})", c["ret"])
         self.bad(node, f"call of `{fname}` is outside the subset")
 
     # ------------------------------------------------------------------------------------------- statements
@@ -609,7 +621,7 @@ class Translator:
         k = self.key(st)
         if k in self.actions:
             env2 = dict(env)
-            env2["__acts"] = V("acts'", "acts", False)
+            env2["__acts"] = V("acts'", env["__acts"].typ, False)
             old = env["__acts"].term
             return f"let acts' := {old} ++ [{self.actions[k]}]\n" + self.block(rest, env2, frame)
         self.bad(st, "expression statement (a call with effects the spec does not name)")
@@ -978,15 +990,16 @@ def select(fn, sel, fname):
             raise Untranslatable(fname, fn, f"fragment anchor {sel['if_test']!r} matches {len(hits)} if statements")
         return "expr", hits[0].test
     hits = [(b, i) for b in blocks_of(fn) for i, s in enumerate(b) if starts(s, sel["start"])]
+    if "end" in sel:
+        # the start anchor may occur elsewhere as long as only one occurrence is followed by the end anchor in its block
+        hits = [(b, i) for b, i in hits if sum(1 for j in range(i, len(b)) if starts(b[j], sel["end"])) == 1]
     if len(hits) != 1:
-        raise Untranslatable(fname, fn, f"fragment anchor {sel['start']!r} matches {len(hits)} statements")
+        raise Untranslatable(fname, fn, f"fragment anchors {sel!r} match {len(hits)} places")
     b, i = hits[0]
     if "end" not in sel:
         return "stmts", b[i:i + 1]
-    ends = [j for j in range(i, len(b)) if starts(b[j], sel["end"])]
-    if len(ends) != 1:
-        raise Untranslatable(fname, b[i], f"fragment end anchor {sel['end']!r} matches {len(ends)} statements of the block")
-    return "stmts", b[i:ends[0] + 1]
+    j = next(j for j in range(i, len(b)) if starts(b[j], sel["end"]))
+    return "stmts", b[i:j + 1]
 
 
 def translate(func, spec):
@@ -1035,7 +1048,7 @@ def _translate(tr, func, spec, assume_raises):
         env[("place", k)] = v
         place_binders.append((k, lname(ln), typ))
     if tr.actions:
-        env["__acts"] = V(f"([] : List {spec['action_type']})", "acts")
+        env["__acts"] = V(f"([] : List {spec['action_type']})", f"List {spec['action_type']}")
     tr.raises_final = assume_raises
     stateful = any(p[3] != "r" for p in tr.places.values()) or bool(tr.outs) or bool(tr.actions)
     kind, body = ("stmts", func.body) if not fragment else select(func, sel, fname)
